@@ -163,6 +163,19 @@ def run(tier, seed):
                 res.count("stack-via-trajectory-option/" + meth)
                 if not same_stack(tr.spawn_stack.unravel(), tensor(meth, sizes)):
                     bad.append(dict(method=meth, stack=sizes, failed=["EvenSamplingTrajectory(spawn_stack=%r, quadrature=%r) samples the tensor product of that rule (construction %d from the same options)" % (sizes, meth, rep + 1)])); break
+        # the default interval is [-1, 1], for the dispatcher as for each rule
+        for n in (3, 5):
+            xd, wd = quadrature(n, method=meth); xe, we = quadrature(n, -1.0, 1.0, method=meth); xb, wb = quadrature(n, b=2.5, method=meth); xc_, wc_ = quadrature(n, -1.0, 2.5, method=meth)
+            res.count("default-interval")
+            if not (np.array_equal(np.asarray(xd), np.asarray(xe)) and np.array_equal(np.asarray(wd), np.asarray(we)) and np.array_equal(np.asarray(xb), np.asarray(xc_)) and np.array_equal(np.asarray(wb), np.asarray(wc_))):
+                bad.append(dict(method=meth, n=n, failed=["the default interval is [-1,1]: quadrature(%d, method=%r) has weights summing to %r" % (n, meth, float(np.sum(wd)))])); break
+        # bounds given as numpy 0-d / one-element arrays that the caller keeps using
+        for n in (3, 5):
+            a0, b0 = np.array(1.0), np.array(3.0); a1, b1 = np.array([0.5]), np.array([2.0])
+            r1 = quadrature(n, a0, b0, method=meth); r2 = quadrature(n, a0, b0, method=meth); r3 = quadrature(n, a1[0:1].reshape(()) if False else a1[0], b1[0], method=meth)
+            res.count("array-bounds-reused")
+            if float(a0) != 1.0 or float(b0) != 3.0 or not (np.array_equal(np.asarray(r1[0]), np.asarray(r2[0])) and np.array_equal(np.asarray(r1[1]), np.asarray(r2[1]))) or abs(float(np.sum(r2[1])) - 2.0) > 1e-13:
+                bad.append(dict(method=meth, n=n, failed=["quadrature(n,a,b) depends only on its arguments and leaves them alone: bounds given as numpy 0-d arrays are now a=%r, b=%r after two calls (weights of the second call sum to %r, b-a = 2)" % (float(a0), float(b0), float(np.sum(r2[1])))])); break
         # aliasing: scale the arrays returned by one call in place, then ask again
         for n in (3, 5):
             x1, w1 = quadrature(n, 0.0, 1.0, method=meth)
